@@ -621,6 +621,7 @@ func runC14(p *core.Prog, r *core.Report) {
 		r.Check(okErr, "C14.R6", "computeGraph/closure-error", "an unknown output module is an error", "ModulesDownTo error ignored", p.Pos(fn.Pos()))
 	})
 	r.Guard("C14.R6", "closure/ModulesDownTo", "ancestor closure", func() { checkClosureFn(p, r, "C14.R6", "ModuleGraph.ModulesDownTo", 0, false) })
+	r.Guard("C14.R6", "graph-edges", "edges only for module inputs", func() { checkGraphEdgesOnlyForModuleInputs(p, r, "C14.R6") })
 	r.Guard("C14.R6", "closure/StoresDownTo", "ancestor closure", func() { checkClosureFn(p, r, "C14.R6", "ModuleGraph.StoresDownTo", 0, true) })
 	r.Guard("C14.R5", "visits-all", "no silent truncation", func() {
 		checkNoSilentTruncation(p, r, "C14.R5", []loopSite{{pkgPipe, "Pipeline.executeModules", nil}, {pkgPipe, "Pipeline.BuildModuleExecutors", nil}, {pkgMani, "NewModuleGraph", nil}})
